@@ -2,12 +2,22 @@
 
 pub mod build;
 pub mod common;
+pub mod roundtrip;
+pub mod sizes;
 
 use crate::run::{Check, Tier};
 
 pub fn check_for(id: &str, tier: Tier) -> Option<Check> {
     match id {
+        "C02" => Some(roundtrip::c02(tier)),
+        "C03" => Some(roundtrip::c03(tier)),
+        "C04" => Some(roundtrip::c04(tier)),
+        "C05" => Some(roundtrip::c05(tier)),
+        "C06" => Some(sizes::c06(tier)),
         "C07" => Some(build::c07(tier)),
+        "C14" => Some(sizes::c14(tier)),
+        "C16" => Some(sizes::c16(tier)),
+        "C17" => Some(sizes::c17(tier)),
         _ => None,
     }
 }
